@@ -35,8 +35,8 @@ func (c17) Rule() string {
 		"a load that makes a canary marker from outside the allowed set visible is a read violation; acceptance must be the same for save and load, for both attempts and both orders; exec/run must not resolve in restricted modes; image.save with hostile image names must only write ./grol.png. " +
 		"Thorough additionally runs a sample under strace and checks every path opened for writing. non-trivial = request that was accepted; distinct = distinct (configuration, name)."
 }
-func (c17) Exhaustive(string) bool { return true }
-func (c17) NumBatches(string) int   { return 6 }
+func (c17) Exhaustive(string) bool     { return true }
+func (c17) NumBatches(string) int      { return 6 }
 func (c17) CaseTimeout() time.Duration { return 300 * time.Second }
 func (c17) Assumptions() []string {
 	return []string{"the allowed-set predicate is the monitor's own reading of the property, not the sanitiser under test", "the unrestricted configuration is only a control run (no confinement is promised there)"}
@@ -51,7 +51,7 @@ type c17Case struct {
 var c17Alphabet = []string{"a", "Z", "1", "_", ".", "/", "\\", "\x00", " ", "~", "\xc3", ".gr"}
 
 type c17Cfg struct {
-	name                      string
+	name                     string
 	restricted, empty, hasIO bool
 }
 
